@@ -24,6 +24,7 @@ import (
 	"sort"
 	"strings"
 	"sync/atomic"
+	"syscall"
 	"time"
 
 	"hmsverif/internal/reflex"
@@ -32,22 +33,34 @@ import (
 // ---------------------------------------------------------------- watchdog
 
 // The driver's idle watchdog needs 90 s to notice a wedged worker. A case of these families
-// takes micro- to milliseconds; if one does not return within c05CaseLimit the worker ends
-// itself with a message the driver attributes to the announced case (WORKER-DEATH:fatal error:
-// verif watchdog ...), so that an unknown hang costs seconds instead of minutes.
+// takes micro- to milliseconds of processor time; if the worker burns more than c05CaseLimit
+// of PROCESSOR time (not wall-clock time: the machine may be loaded, and a case may be waiting
+// for its child probes) inside one case it ends itself with a message the driver attributes
+// to the announced case (WORKER-DEATH:fatal error: verif watchdog ...), so that an unknown
+// spinning hang costs seconds instead of minutes.
 const c05CaseLimit = 20 * time.Second
 
-var c05CaseStart atomic.Int64
+var c05CaseStart atomic.Int64 // processor time of the worker at the start of the case (ns), -1: idle
+
+func selfCPU() time.Duration {
+	var ru syscall.Rusage
+	if syscall.Getrusage(syscall.RUSAGE_SELF, &ru) != nil {
+		return 0
+	}
+	return time.Duration(ru.Utime.Nano() + ru.Stime.Nano())
+}
+
+var c05Watching atomic.Bool
 
 func c05Watch() {
-	if c05CaseStart.Swap(time.Now().UnixNano()) != 0 {
+	if c05Watching.Swap(true) {
 		return
 	}
 	go func() {
 		for {
 			time.Sleep(500 * time.Millisecond)
-			if t := c05CaseStart.Load(); t > 0 && time.Since(time.Unix(0, t)) > c05CaseLimit {
-				fmt.Fprintf(os.Stderr, "fatal error: verif watchdog: case did not return within %s\n", c05CaseLimit)
+			if t := c05CaseStart.Load(); t > 0 && selfCPU()-time.Duration(t) > c05CaseLimit {
+				fmt.Fprintf(os.Stderr, "fatal error: verif watchdog: case did not return within %s of processor time\n", c05CaseLimit)
 				pprof.Lookup("goroutine").WriteTo(os.Stderr, 2)
 				os.Exit(3)
 			}
@@ -63,7 +76,7 @@ const c05Importer = "import x from m;\nfn main() {}\n"
 // role "entry": mods["main"] is the text under test; role "module": it is mods["m"].
 func c05Run(mods map[string]string, underTest string, tags []string, cas string, guarded bool, r *Result) {
 	c05Watch()
-	c05CaseStart.Store(time.Now().UnixNano())
+	c05CaseStart.Store(int64(selfCPU()) + 1)
 	defer c05CaseStart.Store(-1)
 	text := mods[underTest]
 
@@ -282,7 +295,7 @@ func c05InitCorpus() {
 	}
 }
 
-const c05BasicEdits = 4
+const c05BasicEdits = 7
 
 func c05EditKinds(tier string) int {
 	if tier == "thorough" {
@@ -327,6 +340,15 @@ func c05Apply(e c05Edit) (string, string, bool) {
 			gap = " "
 		}
 		return before + lex(n) + gap + lex(t) + string(rs[n.End.Idx+1:]), "swap", true
+	case e.kind == 4:
+		// a character no token starts with, directly behind the token: the lexer reports an
+		// error in the middle of whatever the parser is reading
+		return before + lex(t) + "`" + after, "illegal-char-after", true
+	case e.kind == 5:
+		// a lone quote: an unterminated (or re-paired) string literal from here on
+		return before + lex(t) + "\"" + after, "quote-after", true
+	case e.kind == 6:
+		return before + lex(t) + " 0x " + after, "malformed-number-after", true
 	default:
 		return before + " " + c05Kinds[e.kind-c05BasicEdits] + " " + after, "replace", true
 	}
